@@ -934,6 +934,28 @@ fn C20_fallback_resolver() {
             if got != (a || b) { finding("C20", format!("FallbackResolver: primitive kind {} (0 rng, 1 dh, 2 hash, 3 cipher) preferred provides={} fallback provides={} -> resolved={}", kind, a, b, got)); bad += 1; }
         }
     }
+    // the same for EVERY primitive name, and the primitive returned is the preferred member's when it has one
+    for (a, b) in [(false, false), (true, false), (false, true), (true, true)] {
+        let mk = |on: bool| Partial { rng: on, dh: on, hash: on, cipher: on };
+        let f = FallbackResolver::new(Box::new(mk(a)), Box::new(mk(b)));
+        let mut dhs = vec![DHChoice::Curve25519]; let mut cis = vec![CipherChoice::ChaChaPoly, CipherChoice::AESGCM];
+        #[cfg(feature = "use-p256")] dhs.push(DHChoice::P256);
+        #[cfg(feature = "use-xchacha20poly1305")] cis.push(CipherChoice::XChaChaPoly);
+        for d in &dhs { let (got, want) = (f.resolve_dh(d).map(|x| x.name()), DefaultResolver.resolve_dh(d).map(|x| x.name())); if got.is_some() != (a || b) || (got.is_some() && got != want) { finding("C20", format!("FallbackResolver(preferred provides={}, fallback provides={}).resolve_dh({:?}) = {:?} (the default backend's object is {:?})", a, b, d, got, want)); bad += 1; } }
+        for c in &cis { let (got, want) = (f.resolve_cipher(c).map(|x| x.name()), DefaultResolver.resolve_cipher(c).map(|x| x.name())); if got.is_some() != (a || b) || (got.is_some() && got != want) { finding("C20", format!("FallbackResolver(preferred provides={}, fallback provides={}).resolve_cipher({:?}) = {:?} (the default backend's object is {:?})", a, b, c, got, want)); bad += 1; } }
+        for h in [HashChoice::SHA256, HashChoice::SHA512, HashChoice::Blake2s, HashChoice::Blake2b] { let (got, want) = (f.resolve_hash(&h).map(|x| x.name()), DefaultResolver.resolve_hash(&h).map(|x| x.name())); if got.is_some() != (a || b) || (got.is_some() && got != want) { finding("C20", format!("FallbackResolver(preferred provides={}, fallback provides={}).resolve_hash({:?}) = {:?} (the default backend's object is {:?})", a, b, h, got, want)); bad += 1; } }
+    }
+    // sessions through a fallback combination for every hash / cipher: same bytes as the default backend
+    for prim in ["25519_ChaChaPoly_BLAKE2b", "25519_AESGCM_BLAKE2s", "25519_ChaChaPoly_SHA512"] {
+        let name = format!("Noise_IK_{}", prim); let c = cfg(&name);
+        let fb = || -> BoxedCryptoResolver { Box::new(FallbackResolver::new(Box::new(Partial { rng: false, dh: false, hash: true, cipher: true }), Box::new(Partial { rng: true, dh: true, hash: false, cipher: false }))) };
+        match (build(&c, true, Some(fb())), build(&c, false, Some(fb())), transcript(&c, false)) {
+            (Ok(mut i), Ok(mut r), Ok(clean)) => { let mut buf = vec![0u8; 1000]; let mut p = vec![0u8; 1000];
+                for k in 0..2 { let payload: Vec<u8> = (0..(k * 7 + 3)).map(|x| x as u8).collect(); let (w, rd) = if k % 2 == 0 { (&mut i, &mut r) } else { (&mut r, &mut i) };
+                    match w.write_message(&payload, &mut buf) { Ok(n) if buf[..n] == clean[k][..] => { if rd.read_message(&buf[..n], &mut p).is_err() { finding("C20", format!("{}: fallback session rejects message {}", name, k)); bad += 1; break; } }, o => { finding("C20", format!("{}: message {} through a FallbackResolver (hash and cipher from the preferred member, rng and dh from the fallback) differs from the default backend's: {:?}", name, k, o.map(|_| "other bytes"))); bad += 1; break; } } } },
+            (a, b, _) => { finding("C20", format!("{}: building through a FallbackResolver whose members together provide everything failed: {:?} {:?}", name, a.err(), b.err())); bad += 1; }
+        }
+    }
     // a session through a fallback combination behaves like the default backend
     let name = "Noise_XX_25519_ChaChaPoly_SHA256"; let c = cfg(name);
     let fb = || -> BoxedCryptoResolver { Box::new(FallbackResolver::new(Box::new(Partial { rng: false, dh: false, hash: false, cipher: true }), Box::new(DefaultResolver))) };
